@@ -38,8 +38,14 @@ impl EasingFunction for CountingEase {
         if !(0.0..=1.0).contains(&x) {
             self.bad_arg.fetch_add(1, Ordering::Relaxed);
         }
-        // a deliberately odd but exactly computable shape
-        if x < 0.5 { 0.25 * x } else { 0.125 + (x - 0.5) * 1.75 }
+        // a deliberately odd but exactly computable shape that leaves [0,1] on both sides: it dips
+        // to -0.25 and overshoots to ~1.01 before landing on 1 ("a custom easing is used as given")
+        if x < 0.25 {
+            -x
+        } else {
+            let u = (x - 0.25) / 0.75;
+            -0.25 + 1.25 * u * (2.2 - 1.2 * u)
+        }
     }
 }
 
